@@ -221,6 +221,58 @@ def run(ctx):
     ctx.case(key=('xent1', scale), nontrivial=True, n=200)
     if not (np.allclose(np.asarray(st.accum, np.float64), ref, rtol=2e-5, atol=2e-5 * scale) and np.all(np.asarray(st.weight) == 1)):
       ctx.violation('xent-value:CrossEntropyLoss', f'CrossEntropyLoss differs from the float64 reference at scale {scale}', replay={'scale': scale})
+  # -inf logits (a masked class) and float32-extreme spreads: the loss of a target whose log-probability is -inf is +inf,
+  # a target that keeps all the mass has loss 0; never NaN, never silently 0 for an impossible target
+  ninf = float('-inf')
+  inf_cases = [([0.0, ninf, 1.0], 1, np.inf), ([0.0, ninf, 1.0], 0, float(np.log1p(np.e))), ([ninf, ninf, 2.0], 2, 0.0), ([3e38, -3e38, 0.0], 1, np.inf),
+               ([3e38, -3e38, 0.0], 0, 0.0), ([ninf, 5.0, ninf], 0, np.inf)]
+  for logits, tgt, want in inf_cases:
+    st = metrics.CrossEntropyLoss().evaluate_example({'y': jnp.array(tgt, jnp.int32)}, jnp.array(logits, jnp.float32))
+    got = float(st.accum)
+    replayed += 1
+    ctx.case(key=('xent-inf', repr(logits), tgt), nontrivial=True)
+    okv = (np.isposinf(got) if np.isposinf(want) else (np.isfinite(got) and abs(got - want) <= 1e-5 * (1 + abs(want))))
+    if not okv or float(st.weight) != 1.0:
+      ctx.violation('xent-value:CrossEntropyLoss:inf', f'CrossEntropyLoss on logits {logits} target {tgt}: loss {got}, -log softmax gives {want}', replay={'logits': [str(x) for x in logits], 'target': tgt})
+    for mm, nm in ((metrics.SequenceTokenCrossEntropyLoss(masked_target_values=(99,)), 'SequenceTokenCrossEntropyLoss'), (metrics.SequenceCrossEntropyLoss(masked_target_values=(99,)), 'SequenceCrossEntropyLoss'),
+                   (metrics.SequenceTokenCrossEntropyLoss(masked_target_values=(99,), per_position=True), 'SequenceTokenCrossEntropyLoss(per_position)')):
+      st2 = mm.evaluate_example({'y': jnp.array([tgt, 2], jnp.int32)}, jnp.array([logits, [0.0, 0.0, 9.0]], jnp.float32))
+      g2 = np.asarray(st2.accum, np.float64).reshape(-1)
+      replayed += 1
+      if np.isposinf(want) != bool(np.isposinf(g2[0] if g2.size > 1 else g2.sum())) or np.any(np.isnan(g2)):
+        ctx.violation(f'xent-value:{nm}:inf', f'{nm} on logits {logits} target {tgt} (first token): accum {g2.tolist()}, the token loss is {want}', replay={'logits': [str(x) for x in logits], 'target': tgt})
+  # per-domain statistics of a base metric whose statistic is not a scalar: shape (domains,) + base shape, the example's
+  # domain holds the base statistic, every other domain zero
+  for base_name, base, key0 in (('ConfusionMatrix', metrics.ConfusionMatrix(num_classes=C), 'confusion'), ('SequenceTokenAccuracy(per_position)', metrics.SequenceTokenAccuracy(masked_target_values=(0,), per_position=True), 'tok_acc_pp')):
+    for D in (2, 3, C):
+      pd = metrics.PerDomainMetric(base, num_domains=D)
+      src = [it for key_, its in groups.items() if key_[0] == key0 for it in its][:: 7][:40]
+      for idx, it in enumerate(src):
+        c = it['c']
+        d = idx % D
+        exd = {'y': jnp.array(c['target'], jnp.int32), 'domain_id': jnp.array(d, jnp.int32)}
+        pred = jnp.array(c.get('scores', c.get('preds')), jnp.float32)
+        try:
+          st_b = base.evaluate_example({'y': exd['y']}, pred)
+          st_d = pd.evaluate_example(exd, pred)
+        except Exception as ex_:  # pylint: disable=broad-except
+          ctx.violation(f'per-domain:{base_name}:exception', f'{type(ex_).__name__}: {str(ex_)[:150]} for PerDomainMetric({base_name}, {D})', replay={'case': c})
+          break
+        replayed += 1
+        bad_f = None
+        for f in ('accum', 'weight'):
+          if not hasattr(st_b, f):
+            continue
+          b_ = np.asarray(getattr(st_b, f), np.float64)
+          g_ = np.asarray(getattr(st_d, f), np.float64)
+          want_ = np.zeros((D,) + b_.shape)
+          want_[d] = b_
+          if g_.shape != want_.shape or not np.array_equal(g_, want_):
+            bad_f = (f, g_.shape, want_.shape)
+        if bad_f:
+          ctx.violation(f'per-domain:{base_name}', f'PerDomainMetric({base_name}, num_domains={D}) on an example of domain {d}: {bad_f[0]} has shape {bad_f[1]}, expected {bad_f[2]} with the base statistic '
+                        f'in slot {d} and zeros elsewhere; target={c["target"]}', replay={'case': c, 'domain': d, 'D': D})
+          break
   ctx.trace_ok(replayed)
   ctx.exhaustive = True
   ctx.leg('R', table_cases=len(cases), configurations=len(groups), replays=replayed)
